@@ -3,12 +3,14 @@ from ..core.model import Program
 from ..core.report import CheckContext
 from ..core.resolve import Resolver
 from ..rules import tables
+from ..rules import tables as _tables_be
 from .common import run_control, generic_rules
 
 
 def analyse(ctx: CheckContext, p: Program):
     r = Resolver(p)
     ctx.guard(generic_rules, ctx, p, r, "C08")
+    ctx.guard(_tables_be.check_block_ends, ctx, p, r)
     ctx.guard(tables.check_interpolation_keys, ctx, p, r)
     ctx.guard(tables.check_capacity_pairs, ctx, p, r)
     ctx.guard(tables.check_insert_count, ctx, p, r)
@@ -26,6 +28,8 @@ def run(ctx: CheckContext):
         "cumulative columns are the ProblemTableLabel members named H_* (the repository's own naming table)",
     ]
     pt = "OpenPinch/classes/problem_table.py"
+    run_control(ctx, "C08/neighbours-from-one-end", analyse, p.root, pt,
+                "            upper_pos = orig_positions.get(lower_idx - 1)\n            lower_pos = orig_positions.get(lower_idx)", "            upper_pos = positions[0] - 1\n            lower_pos = positions[0] + 1", "BLOCK-ENDS")
     run_control(ctx, "C08/key-removed", analyse, p.root, pt, "    PT.H_NET_UT.value,\n", "", "T1")
     run_control(ctx, "C08/key-duplicated", analyse, p.root, pt, "    PT.H_HOT_UT.value,\n    PT.H_COLD_UT.value,\n", "    PT.H_HOT_UT.value,\n    PT.H_HOT_UT.value,\n", "T1")
     run_control(ctx, "C08/count-off", analyse, p.root, pt, "        return new_data, inserted_total", "        return new_data, len(interval_map)", "COUNT")
